@@ -223,6 +223,10 @@ func (c *CLokiQuerier) Select(sortSeries bool, hints *storage.SelectHints,
 			model.Sample{ts, val})
 		cntRows++
 	}
+	// a stream that broke off (connection lost, context done) is an error, not a shorter result
+	if err = rows.Err(); err != nil {
+		return &model.SeriesSet{Error: err}
+	}
 	if len(res.Series) > 0 && q.MapResult != nil {
 		res.Series[len(res.Series)-1].Samples = q.MapResult(res.Series[len(res.Series)-1].Samples)
 	}
@@ -393,5 +397,6 @@ func (l *labelsGetter) Fetch() error {
 		l.fingerprintsHas[fingerprint] = strLabels
 		//cache.Set(l.getIdx(fingerprint), bLabels)
 	}
-	return nil
+	// label rows that stopped coming would leave series under the empty label set
+	return rows.Err()
 }
